@@ -98,6 +98,17 @@ CLAIMED.update({
             "DESIGN.md §4 C11"),
 })
 
+CLAIMED.update({
+    "C17": ("sibling agreement over all implementations of the Type interface (guard dominance) + operand symmetry (taint classes) + phi-flag analysis over go/ssa (partial claim)",
+            "Structural necessary conditions: every IsValidJson / FilterJson implementation accepts null first and without effect; every IsAssignableFrom / CheckEqual pairs the same component of receiver and argument; JSON rebuilders keep the identity fast path and raise the 'different' flag whenever a component changed.",
+            "Partial: idempotence, validity of the rebuilt JSON and int/float normalisation are value-level and not decided.",
+            "DESIGN.md §4 C17"),
+    "C07": ("operand symmetry over the assignability/equality relations + sibling agreement of the reference arm of every IsValidExpression implementation (guard dominance over go/ssa) (thin claim)",
+            "Two mechanisms, not the property's behaviour: assignability recurses on the right operands; a reference is accepted only after resolveType succeeded and the referenced type is assignable TO the receiver type, in every implementation of the interface.",
+            "Thin: soundness of the whole relation, projection, map-call dimensions and error locations are not decided.",
+            "DESIGN.md §4 C07"),
+})
+
 NOT_APPLICABLE = {
     "C01": "Equality of delivered argument values with the denotation of binding expressions quantifies over run-time JSON values and fork matching for all programs; no clause is a fact about the shape of the code, so any static rule would be a proxy, not a necessary condition.",
     "C13": "Materialisation of files under outs/ and the rewritten _outs are file-system effects and hand-assembled JSON values; the only structural candidate (bracket pairing of the JSON writers) does not imply validity and is exercised by the existing golden tests.",
